@@ -79,6 +79,40 @@ class TellingSeq(ReadOnlySeq):
         return self._pos
 
 
+class _RawSeq(io.RawIOBase):
+    """Raw, non-seekable byte source for a REAL io.BufferedReader (see buffered_seq)."""
+
+    def __init__(self, data):
+        super().__init__()
+        self._data = data
+        self._pos = 0
+
+    def readable(self):
+        return True
+
+    def seekable(self):
+        return False
+
+    def tell(self):
+        return self._pos
+
+    def readinto(self, b):
+        n = min(len(b), len(self._data) - self._pos)
+        b[:n] = self._data[self._pos:self._pos + n]
+        self._pos += n
+        return n
+
+
+def buffered_seq(data, bufsize, cut=None, flips=()):
+    """A real io.BufferedReader (read / read1 / readinto / peek / tell, not seekable) with a tiny
+    buffer over the same faulted bytes a ReadOnlySeq would serve: what ``open(path, 'rb')`` or a pipe's
+    read end hands to fastavro, with the buffer boundary -- which real files have every 8 KiB --
+    moved to every few bytes so that code paths depending on it are actually reached.
+    ``tell()`` is the logical position (bytes handed out), independent of read-ahead."""
+    base = ReadOnlySeq(data, cut=cut, flips=flips)
+    return io.BufferedReader(_RawSeq(base._data), buffer_size=max(1, bufsize))
+
+
 class WriteOnlySink(_Logged):
     """A write-only, non-seekable output (pipe / socket like): write, flush and
     seekable() -> False.  Anything else is recorded and raises."""
@@ -214,12 +248,14 @@ class _PipeW(_Logged):
     def __init__(self, pipe):
         super().__init__()
         self.p = pipe
+        self.unflushed = 0   # bytes written since the last flush()
 
     def write(self, b):
         p = self.p
         b = bytes(b)
         if p.w_closed:
             raise ValueError("write to closed pipe")
+        self.unflushed += len(b)
         i = 0
         while i < len(b):
             if p.capacity is not None and len(p.buf) >= p.capacity:
@@ -234,6 +270,7 @@ class _PipeW(_Logged):
 
     def flush(self):
         self._l("flush")
+        self.unflushed = 0
         self.p.sched.yield_point("pipe-flush")
 
     def seekable(self):
